@@ -4,8 +4,25 @@ restatement of the property on it; the (input, expected) table is replayed into 
 (server side and client side, ReadMessage and NextReader, whole stream and 1..3-byte chunks) by harness/wsreader,
 which has its own frame writer, deflate writer and frame parser.
 
-Mutations of /repo/internal/websocket/conn.go tried (scratch worktrees with the fixes of the genuine defects
-applied so that the baseline is green) -- see MUTATIONS at the end of this file; all were caught.
+Genuine defects found on the unchanged tree (each reproduced standalone; fixes in the builder's report):
+  proto[close-1byte]   Close frame with a 1-byte body answered with a normal Close and reported as 1005 (RFC 6455 5.5.1)
+  proto[rsv1-cont]     with permessage-deflate negotiated a CONTINUATION frame carrying RSV1 is accepted (RFC 7692 6)
+  proto[rsv1-ctl]      ... a PING/PONG/CLOSE carrying RSV1 is accepted (and the ping ponged) (RFC 7692 6)
+  proto[len-nonmin]    a data frame whose length is not minimally encoded (5 bytes in the 16-/64-bit form) is accepted (RFC 6455 5.2)
+  proto[len-msb]       a 64-bit length with the most significant bit set fails with ErrReadLimit but no Close frame is sent (RFC 6455 5.2)
+
+Mutation testing (FRAMEWORK rule 3): scratch worktree /tmp/wsreader-wt = HEAD + the fixes of the defects above (baseline
+green, exit 0), one hand mutation of internal/websocket/conn.go at a time, `VERIF_REPO=/tmp/wsreader-wt ./check C29`.
+All 18 were caught (exit 1 + VIOLATION):
+  M1  control frame length check 125 -> 126                     M10 RSV2 check dropped
+  M2  "continuation after FIN" check dropped                    M11 "data before FIN" (new message inside a fragmented one) dropped
+  M3  unmasked frames accepted by the server                    M12 close code 1005 accepted in a received Close
+  M4  FIN check for control frames dropped                      M13 UTF-8 check of the close reason dropped
+  M5  read limit off by one (> -> >=)                           M14 mask position not reset at a new frame
+  M6  decompressed limit off by one (+1 -> +2)                  M15 read limit applied per frame instead of per message
+  M7  reserved-opcode check dropped                             M16 decompressed limit not applied
+  M8  protocol error answered with Close 1008 instead of 1002   M17 no Close 1009 when the read limit is exceeded
+  M9  pong does not echo the ping payload                       M18 received Close not answered
 """
 import json
 import os
@@ -106,6 +123,3 @@ META = {'C29': dict(
          'harness frame writer/parser and deflate writer (self-tested against compress/flate).',
     technique='TLA+ reference decoder + TLC exhaustive enumeration; function-table replay into internal/websocket.Conn',
     design_ref='DESIGN.md 4.4, 8 (C29), 10 item 11')}
-
-MUTATIONS = """
-"""
